@@ -283,7 +283,22 @@ def uri_strategy():
         return body
 
     escaped = st.one_of(esc, st.tuples(esc, st.sampled_from([92, 93])).map(fix), st.tuples(esc, st.sampled_from([92, 93])).map(fix_decoded))
-    return st.fixed_dictionaries({"uri": st.one_of(plain, near, noslash, forced, forced, escaped)})
+    # characters beyond latin-1 count with their code point like any other character (and are no alphanumerics): they are
+    # neither dropped nor replaced before the length test, the sum or the shape test
+    _WIDE = "\u20ac\u0141\u4e2d\U0001f600\u0100\u015c\u015d\u0416\uff21"
+    wide_body = st.tuples(st.text(alphabet=ALNUM, max_size=4), st.text(alphabet=_WIDE, min_size=1, max_size=2), st.text(alphabet=ALNUM, max_size=3)).map(lambda t: "/" + t[0] + t[1] + t[2])
+
+    def fix_without_wide(t):
+        # the checksum that results when the wide characters are ignored is made 92 / 93
+        body, target = t
+        s = sum(ord(c) for c in body if c != "/" and ord(c) < 256)
+        for c in ALNUM:
+            if (s + ord(c)) % 256 == target:
+                return body + c
+        return body
+
+    wide = st.one_of(wide_body, st.tuples(wide_body, st.sampled_from([92, 93])).map(fix), st.tuples(wide_body, st.sampled_from([92, 93])).map(fix_without_wide))
+    return st.fixed_dictionaries({"uri": st.one_of(plain, near, noslash, forced, forced, escaped, wide)})
 
 
 def uri_execute(case, stats):
@@ -291,7 +306,7 @@ def uri_execute(case, stats):
 
     uri = case["uri"]
     x86, x64 = _check_uri(utils, uri)
-    stats.note(case, len(uri) >= 4, classes=["x86" if x86 else "x64" if x64 else "not_stager", "percent_escape" if "%" in uri else "no_escape"])
+    stats.note(case, len(uri) >= 4, classes=["x86" if x86 else "x64" if x64 else "not_stager", "percent_escape" if "%" in uri else "no_escape", "beyond_latin1" if any(ord(c) > 255 for c in uri) else "latin1"])
 
 
 # ----------------------------------------------------------------------------------------------- generator
